@@ -382,9 +382,12 @@ func (p *Prog) VerifyFunction(fn *ssa.Function, fc *FuncContract, split *int, wa
 			if cur.T == base.T || e.modifiesGhost(fc, strings.TrimPrefix(hn, "G_")) {
 				continue
 			}
-			l := Val{"l!", SLoc}
-			bal := Forall([]Val{l}, Implies(Val{app("<", LRef(l).T, fr.oldSt.next.T), SBool}, Eq(Select(cur, l), Select(base, l))))
-			e.oblig(r.st, "lock", "balanced@"+rlabel, bal, r.instr.Pos(), nil, nil)
+			// every mutex this function locked or unlocked is in the state it had at entry
+			var parts []Val
+			for _, m := range e.lockTouched {
+				parts = append(parts, Implies(Val{app("<", LRef(m).T, fr.oldSt.next.T), SBool}, Eq(Select(cur, m), Select(base, m))))
+			}
+			e.oblig(r.st, "lock", "balanced@"+rlabel, And(parts...), r.instr.Pos(), nil, nil)
 		}
 		// frame
 		if fc != nil && fc.HasMod && !fc.TrustedPost {
@@ -412,9 +415,7 @@ func (e *Enc) modifiesGhost(fc *FuncContract, name string) bool {
 				return true
 			}
 		}
-		if id, ok := m.(*SIdent); ok && id.Name == "everything" {
-			return true
-		}
+		// `modifies everything` does not license leaving a lock held: only an explicit held(...) target does
 	}
 	return false
 }
